@@ -7,7 +7,7 @@
        datagrams of at least 1200 bytes and never a Version Negotiation packet;
      - every client datagram that carries an Initial packet is at least 1200 bytes. *)
 EXTENDS Naturals, FiniteSets, Sequences, TLC
-CONSTANT KnownF4
+CONSTANTS KnownF4, KnownF10
 None == 0 - 1
 VARIABLES
   rcvd, sentB, valid,   \* per server connection id: bytes received / sent, address validated
@@ -16,31 +16,61 @@ VARIABLES
                         \* [kind |-> "conn" | "sr" | "vn" | "retry", len |-> bytes (connection datagrams) ]
   answered,             \* number of endpoint-level replies sent so far
   clientInitial,        \* the client has written an Initial packet into the datagram being built
+  addrRcvd, addrSent,   \* primary server connection, per client address: bytes received from / sent to it
+  addrCredit,           \* the implementation's own counter per address: +3n on receipt, -n (not below 0) on transmission
+  addrValid,            \* addresses the primary server connection has validated (Handshake packet or PATH_RESPONSE from there)
+  lastAddr,             \* source address of the datagram the server received last
   eligible,             \* datagrams the network has accepted towards the server (copies and forged ones included)
   retries               \* Retry datagrams that have left the server
-avars == <<rcvd, sentB, valid, triggers, pendingKind, clientInitial, answered, eligible, retries>>
-AInit == rcvd = <<>> /\ sentB = <<>> /\ valid = {} /\ triggers = <<>> /\ pendingKind = <<>> /\ clientInitial = FALSE /\ answered = 0 /\ eligible = 0 /\ retries = 0
-AReset == rcvd' = <<>> /\ sentB' = <<>> /\ valid' = {} /\ triggers' = <<>> /\ pendingKind' = <<>> /\ clientInitial' = FALSE /\ answered' = 0 /\ eligible' = 0 /\ retries' = 0
+avars == <<rcvd, sentB, valid, triggers, pendingKind, clientInitial, answered, eligible, retries, addrRcvd, addrSent, addrValid, lastAddr, addrCredit>>
+pvars == <<addrRcvd, addrSent, addrValid, lastAddr, addrCredit>>
+AInit == rcvd = <<>> /\ sentB = <<>> /\ valid = {} /\ triggers = <<>> /\ pendingKind = <<>> /\ clientInitial = FALSE /\ answered = 0 /\ eligible = 0 /\ retries = 0 /\ addrRcvd = <<>> /\ addrSent = <<>> /\ addrValid = {} /\ lastAddr = "none" /\ addrCredit = <<>>
+AReset == rcvd' = <<>> /\ sentB' = <<>> /\ valid' = {} /\ triggers' = <<>> /\ pendingKind' = <<>> /\ clientInitial' = FALSE /\ answered' = 0 /\ eligible' = 0 /\ retries' = 0 /\ addrRcvd' = <<>> /\ addrSent' = <<>> /\ addrValid' = {} /\ lastAddr' = "none" /\ addrCredit' = <<>>
 Get(f, k) == IF k \in DOMAIN f THEN f[k] ELSE 0
 Put(f, k, v) == [x \in DOMAIN f \cup {k} |-> IF x = k THEN v ELSE f[x]]
 
-ServerRx(conn, len) == rcvd' = Put(rcvd, conn, Get(rcvd, conn) + len) /\ UNCHANGED <<sentB, valid, triggers, pendingKind, clientInitial, answered, eligible, retries>>
-ServerValidated(conn) == valid' = valid \cup {conn} /\ UNCHANGED <<rcvd, sentB, triggers, pendingKind, clientInitial, answered, eligible, retries>>
+ServerRx(conn, len) == /\ rcvd' = Put(rcvd, conn, Get(rcvd, conn) + len)
+                       /\ addrRcvd' = (IF conn = 0 THEN Put(addrRcvd, lastAddr, Get(addrRcvd, lastAddr) + len) ELSE addrRcvd)
+                       /\ addrCredit' = (IF conn = 0 THEN Put(addrCredit, lastAddr, Get(addrCredit, lastAddr) + 3 * len) ELSE addrCredit)
+                       /\ UNCHANGED <<sentB, valid, triggers, pendingKind, clientInitial, answered, eligible, retries, addrSent, addrValid, lastAddr>>
+ServerValidated(conn) == /\ valid' = valid \cup {conn}
+                         /\ addrValid' = (IF conn = 0 THEN addrValid \cup {lastAddr} ELSE addrValid)
+                         /\ UNCHANGED <<rcvd, sentB, triggers, pendingKind, clientInitial, answered, eligible, retries, addrRcvd, addrSent, lastAddr, addrCredit>>
+\* a PATH_RESPONSE arrived from the address the server received from last: that address is validated (RFC 9000 8.2.3)
+PathValidated == addrValid' = addrValid \cup {lastAddr}
+                 /\ UNCHANGED <<rcvd, sentB, valid, triggers, pendingKind, clientInitial, answered, eligible, retries, addrRcvd, addrSent, lastAddr, addrCredit>>
+ServerSaw(addr) == lastAddr' = addr
+                   /\ UNCHANGED <<rcvd, sentB, valid, triggers, pendingKind, clientInitial, answered, eligible, retries, addrRcvd, addrSent, addrValid, addrCredit>>
 \* the server starts a datagram of a connection
 ServerTx(conn, len) ==
   /\ conn \in valid \/ Get(sentB, conn) < 3 * Get(rcvd, conn)
   /\ sentB' = Put(sentB, conn, Get(sentB, conn) + len)
-  /\ pendingKind' = Append(pendingKind, [kind |-> "conn", len |-> len])
-  /\ UNCHANGED <<rcvd, valid, triggers, clientInitial, answered, eligible, retries>>
+  /\ pendingKind' = Append(pendingKind, [kind |-> "conn", len |-> len, conn |-> conn])
+  /\ UNCHANGED <<rcvd, valid, triggers, clientInitial, answered, eligible, retries, pvars>>
 
 \* a datagram reached the server but belongs to no connection
-Unroutable(len, isVn) == triggers' = Append(triggers, [len |-> len, vn |-> isVn]) /\ UNCHANGED <<rcvd, sentB, valid, pendingKind, clientInitial, answered, eligible, retries>>
-Announce(kind) == pendingKind' = Append(pendingKind, [kind |-> kind, len |-> 0]) /\ UNCHANGED <<rcvd, sentB, valid, triggers, clientInitial, answered, eligible, retries>>
+Unroutable(len, isVn) == triggers' = Append(triggers, [len |-> len, vn |-> isVn]) /\ UNCHANGED <<rcvd, sentB, valid, pendingKind, clientInitial, answered, eligible, retries, pvars>>
+Announce(kind) == pendingKind' = Append(pendingKind, [kind |-> kind, len |-> 0, conn |-> 0 - 1]) /\ UNCHANGED <<rcvd, sentB, valid, triggers, clientInitial, answered, eligible, retries, pvars>>
 Remove(s, i) == [j \in 1..(Len(s) - 1) |-> IF j < i THEN s[j] ELSE s[j + 1]]
 \* the datagram of an endpoint-level reply leaves the server
 \* a datagram leaves the server: it is the oldest one handed to the socket
-ServerDatagram(len) ==
+\* RFC 9000 8.1 / 9.3: the same limit holds for EVERY address of the peer - after a migration or an apparent migration the
+\* new address is unvalidated until a PATH_RESPONSE (or a Handshake packet) has come from it
+AddressBudget(h, dst, len) ==
+  IF h.kind = "conn" /\ h.conn = 0
+  THEN /\ \/ dst \in addrValid
+          \/ Get(addrSent, dst) < 3 * Get(addrRcvd, dst)
+          \* known finding F10 (named): the implementation keeps a saturating allowance, so the bytes by which a datagram
+          \* overshot it are forgotten and a few bytes received afterwards re-open the address although the total sent
+          \* there has long reached three times the total received
+          \/ (KnownF10 /\ Get(addrCredit, dst) > 0 /\ PrintT(<<"KNOWN-FINDING", "F10">>))
+       /\ addrSent' = Put(addrSent, dst, Get(addrSent, dst) + len)
+       /\ addrCredit' = Put(addrCredit, dst, IF Get(addrCredit, dst) > len THEN Get(addrCredit, dst) - len ELSE 0)
+  ELSE addrSent' = addrSent /\ addrCredit' = addrCredit
+ServerDatagram(len, dst) ==
   /\ Len(pendingKind) > 0
+  /\ AddressBudget(Head(pendingKind), dst, len)
+  /\ UNCHANGED <<addrRcvd, addrValid, lastAddr>>
   /\ LET h == Head(pendingKind) IN
      IF h.kind = "conn" THEN h.len = len /\ triggers' = triggers /\ retries' = retries
      ELSE IF h.kind = "retry" THEN
@@ -61,11 +91,11 @@ ServerDatagram(len) ==
   /\ answered' = IF Head(pendingKind).kind \in {"conn", "retry"} THEN answered ELSE answered + 1
   /\ UNCHANGED <<rcvd, sentB, valid, clientInitial, eligible>>
 
-ClientWroteInitial == clientInitial' = TRUE /\ UNCHANGED <<rcvd, sentB, valid, triggers, pendingKind, answered, eligible, retries>>
+ClientWroteInitial == clientInitial' = TRUE /\ UNCHANGED <<rcvd, sentB, valid, triggers, pendingKind, answered, eligible, retries, pvars>>
 \* known finding F4 (named): a client CONNECTION_CLOSE datagram that still carries an Initial packet is not padded
 ClientDatagram(len, closing, copies) ==
   /\ clientInitial => (len >= 1200 \/ (KnownF4 /\ closing /\ PrintT(<<"KNOWN-FINDING", "F4">>)))
   /\ clientInitial' = FALSE
   /\ eligible' = eligible + copies
-  /\ UNCHANGED <<rcvd, sentB, valid, triggers, pendingKind, answered, retries>>
+  /\ UNCHANGED <<rcvd, sentB, valid, triggers, pendingKind, answered, retries, pvars>>
 =============================================================================
